@@ -40,6 +40,8 @@ def library_flows():
     out.append(("Flow(RQ coupling ctx, StandardNormal, embedding)", lambda: Flow(cp.PiecewiseRationalQuadraticCouplingTransform(
         [1, 0], lambda i, o: nets.ResidualNet(i, o, 8, context_features=3, num_blocks=1), num_bins=3, tails="linear", tail_bound=3.0),
         normal.StandardNormal([2]), embedding_net=nn.Linear(2, 3)), 2, 2))
+    out.append(("Flow(MAF-transform ctx, ConditionalDiagonalNormal, embedding)", lambda: Flow(ar.MaskedAffineAutoregressiveTransform(2, 8, context_features=4),
+                normal.ConditionalDiagonalNormal([2]), embedding_net=nn.Linear(3, 4)), 2, 3))
     out.append(("MaskedAutoregressiveFlow (no context)", lambda: MaskedAutoregressiveFlow(2, 8, 2, 1), 2, None))
     out.append(("Flow(Sigmoid-1 o affine 1-D, StandardNormal)", lambda: Flow(base.CompositeTransform([nl.LeakyReLU(0.3)]), normal.StandardNormal([1])), 1, None))
     return out
@@ -166,6 +168,56 @@ def search(ck, drv, tier, seed):
                 if lp.shape != lp2.shape or not torch.allclose(lp, lp2, atol=2e-4, rtol=2e-4):
                     ck.finding("flow:returned-log_prob-is-not-log_prob-of-sample:%s" % name,
                                "rows %s n %d: max diff %g" % (k, n, float((lp - lp2).abs().max())), case)
+    # ---- a flow that has been used keeps no memory of it: after its parameters change (another checkpoint loaded) or after the
+    # SAME context tensor is overwritten in place, sampling and log_prob agree with a twin that was built with the new parameters
+    # and has never been called (same generator seed -> same noise).  Evaluation mode, no gradients, as at deployment.
+    for name, mk, D, cd in library_flows():
+        if cd is None:
+            continue
+        torch.manual_seed(seed)
+        A = mk().eval()
+        torch.manual_seed(seed + 1)
+        B = mk().eval()
+        from catalogue import randomize as _rnd
+        _rnd(B, seed + 2, 0.5)
+        g = torch.Generator(); g.manual_seed(seed + 3)
+        c = torch.randn(3, cd, generator=g)
+        c_new = torch.randn(3, cd, generator=g)
+        x = torch.randn(3, D, generator=g) * 0.5
+        ck.case(("twin", name), nontrivial=True)
+        case = {"search": "used-flow-vs-fresh-twin", "flow": name, "seed": seed}
+        with torch.no_grad():
+            attempt(A.sample_and_log_prob, 2, c)
+            attempt(A.sample, 2, c)
+            attempt(A.log_prob, x, c)
+        if attempt(A.load_state_dict, B.state_dict())[0] != "ok":
+            continue
+
+        def same(u, v):
+            return u.shape == v.shape and bool(torch.allclose(u, v, atol=1e-5, rtol=1e-5, equal_nan=True))
+        for what in ("after load_state_dict", "after the context tensor was overwritten in place"):
+            if what.startswith("after the context"):
+                c.copy_(c_new)
+            cb = c.clone()
+            with torch.no_grad():
+                torch.manual_seed(seed + 9); ra = attempt(A.sample_and_log_prob, 4, c)
+                torch.manual_seed(seed + 9); rb = attempt(B.sample_and_log_prob, 4, cb)
+                torch.manual_seed(seed + 10); sa = attempt(A.sample, 4, c)
+                torch.manual_seed(seed + 10); sb = attempt(B.sample, 4, cb)
+                la, lb = attempt(A.log_prob, x, c), attempt(B.log_prob, x, cb)
+            if "ok" not in (ra[0], rb[0], sa[0], sb[0], la[0], lb[0]):
+                continue
+            bad = None
+            if ra[0] != rb[0] or (ra[0] == "ok" and not (same(ra[1][0], rb[1][0]) and same(ra[1][1], rb[1][1]))):
+                bad = "sample_and_log_prob"
+            elif sa[0] != sb[0] or (sa[0] == "ok" and not same(sa[1], sb[1])):
+                bad = "sample"
+            elif la[0] != lb[0] or (la[0] == "ok" and not same(la[1], lb[1])):
+                bad = "log_prob"
+            if bad:
+                ck.finding("flow:used-flow-differs-from-fresh-twin:%s" % name,
+                           "%s: %s %s differs from a never-called twin holding the same parameters (same noise)" % (name, bad, what), case)
+                break
     # ---- the noise is standard normal whatever the dtype of the context (only its size and device matter)
     from nflows.transforms.standard import PointwiseAffineTransform as PA
     for dname, mkctx in (("int64", lambda: torch.tensor([[3], [1]], dtype=torch.int64)),
